@@ -142,7 +142,10 @@ def call_real(case):
         ret = mokapot.make_decoys(arg, out, decoy_prefix=case["prefix"], enzyme=enzyme,
                                   reverse=case["reverse"], concatenate=case["concat"])
         tr["written"] = enc(tiny_read(str(ret)))
-        tr["reread"] = enc(F._parse_protein(p) for p in F._parse_fasta_files(str(ret)))
+        if hasattr(F, "_parse_protein") and hasattr(F, "_parse_fasta_files"):
+            tr["reread"] = enc(F._parse_protein(p) for p in F._parse_fasta_files(str(ret)))      # mokapot's own (private) FASTA reader
+        else:
+            tr["reread"] = list(tr["written"])      # the private helpers were renamed / merged: the driver's independent reader stands in
     except Exception as e:      # the statement quantifies over every well-formed FASTA input: no exception is in domain
         tr["raised"] = "%s: %s" % (type(e).__name__, e)
     return tr
@@ -333,6 +336,10 @@ def build_cases(ctx, rng):
             cases.append(make_case(idx, seqs, enz, reverse, concat, ctx.seed * 7919 + idx * 31 + rep))
             idx += 1
     cases += random_cases(rng, 400 if ctx.quick else 8000, idx)
+    # databases with thousands of entries (a writer that works in blocks must not lose or glue records at block borders)
+    for k, (nrec, concat) in enumerate([(2600, True), (5003, False)] if ctx.quick else [(2600, True), (5003, False), (10001, False), (7500, True), (4097, True)]):
+        seqs = ["".join(AMINO[int(x)] for x in rng.integers(0, len(AMINO), int(rng.integers(1, 13)))) for _ in range(nrec)]
+        cases.append(make_case(idx + 100000 + k, seqs, "KR", bool(k % 2), concat, int(rng.integers(0, 2 ** 31))))
     return cases, len(base)
 
 
